@@ -1192,6 +1192,12 @@ func (f *frame) encodePhi(phi *ssa.Phi, b *ssa.BasicBlock, preds []*ssa.BasicBlo
 		for k, bp := range b.Preds {
 			if bp == p {
 				sv := f.get(phi.Edges[k])
+				if sv.loc != nil && sv.loc.kind == locGlobal && sv.loc.idx == "" {
+					if _, isStruct := sv.loc.elemT.Underlying().(*types.Struct); isStruct {
+						// the address of a package-level struct variable is an ordinary reference
+						sv = SV{t: sv.t, term: f.enc.globalAddr(sv.loc.global)}
+					}
+				}
 				if sv.loc != nil || sv.tuple != nil {
 					bail("phi over address/tuple in %s", f.fn.Name())
 				}
